@@ -29,6 +29,25 @@ SINGLE_ELEMENT_OPS = ("emplace", "emplace_back", "insert", "push_back", "pop_bac
 W = "$w"  # ghost: index of the slot written last on this path
 
 
+def manual_memory_hits(f):
+    out = []
+    for bid, i, e in f.all_elems():
+        if e.get("expr") is None:
+            continue
+        for n in walk(e["expr"]):
+            k = n.get("k")
+            bad = None
+            if k in ("new", "delete", "pseudo_dtor"):
+                bad = k
+            elif k == "call" and short(n.get("name") or "") in ("malloc", "free", "calloc", "realloc", "release", "operator new", "operator delete", "memcpy", "memmove", "memset"):
+                bad = short(n["name"])
+            elif k == "call" and short(n.get("name") or "").startswith("~"):
+                bad = "explicit destructor call"
+            if bad:
+                out.append((n, bad))
+    return out
+
+
 def is_this(n):
     n = ir.unwrap(n)
     return isinstance(n, dict) and n.get("k") == "this"
@@ -206,21 +225,13 @@ def run(ctx):
               "the storage member is %s" % (data[0]["type"] if data else "missing"), "%s:%d" % (cls["file"], cls["line"]))
     manual = 0
     for f in methods:
-        for bid, i, e in f.all_elems():
-            if e.get("expr") is None:
-                continue
-            for n in walk(e["expr"]):
-                k = n.get("k")
-                bad = None
-                if k in ("new", "delete", "pseudo_dtor"):
-                    bad = k
-                elif k == "call" and short(n.get("name") or "") in ("malloc", "free", "calloc", "realloc", "release", "operator new", "operator delete", "memcpy", "memmove", "memset"):
-                    bad = short(n["name"])
-                elif k == "call" and short(n.get("name") or "").startswith("~"):
-                    bad = "explicit destructor call"
-                if bad:
-                    manual += 1
-                    ctx.bad("R06.8", f, "manual-memory:" + bad, "%s uses %s: element lifetime is no longer managed by unique_ptr<T[]> alone (raw byte copies bypass element assignment)" % (short(f.qual), bad), (f, n.get("ln")))
+        for (n, bad) in manual_memory_hits(f):
+            manual += 1
+            ctx.bad("R06.8", f, "manual-memory:" + bad, "%s uses %s: element lifetime is no longer managed by unique_ptr<T[]> alone (raw byte copies bypass element assignment)" % (short(f.qual), bad), (f, n.get("ln")))
+    from .common import fx
+    for nm in ("manual_memory::grow", "manual_memory::shrink", "manual_memory::shift", "manual_memory::raw"):
+        g = fx(ctx, nm)
+        ctx.fixture("R06.8", nm, g is not None and bool(manual_memory_hits(g)), True, "manual memory recognised")
     if not manual:
         ctx.ok("R06.8", FV, "no-manual-memory", "%d member functions scanned" % len(methods), "%s:%d" % (cls["file"], cls["line"]))
 
